@@ -237,3 +237,87 @@ package knx
 //@   loop 0 step [appended] len(results) > prev(len(results)) ==> results[len(results)-1] == lastrecv(socket.Inbound()).(*knxnet.SearchRes)
 //@   loop 0 assigns results[0:cap(results)]
 //@   loop 0 ghost nrecv lastrecv
+
+// ---------- C14 / C13: router client ----------
+
+//@ func checkRouterConfig(config RouterConfig) (r RouterConfig)
+//@   props C14
+//@   ensures [retain] r.RetainCount >= 1 && (config.RetainCount >= 1 ==> r.RetainCount == config.RetainCount) && r.PostSendPauseDuration == config.PostSendPauseDuration
+//@   assigns nothing
+
+//@ func (router *Router) pushInbound(msg cemi.Message)
+//@   props C14
+//@   ghost nsent(router.inbound) lastsent(router.inbound) nspawn spawnarg
+//@   requires !closed(router.inbound)
+//@   ensures [handoff] nsent(router.inbound) == old(nsent(router.inbound)) + 1 && lastsent(router.inbound) == msg
+//@   assigns nothing
+
+//@ func (router *Router) Send(data cemi.Message) (err error)
+//@   props C14 C13
+//@   ghost nsend(router.sock) lastsend(router.sock) sendsame(router.sock) sendclock(router.sock) held(router.sendMu) unlockclock(router.sendMu) llen(router.retainer) lpush(router.retainer) lpopfront(router.retainer) lend nspawn spawnarg clock slept
+//@   requires router.sock != nil && router.retainer != nil && !held(router.sendMu) && router.config.RetainCount >= 1 && router.config.RetainCount <= 1<<30 && uint(gobj("llen", router.retainer)) <= router.config.RetainCount && router.postSendPause <= 1<<40
+//@   ensures [nil] data == nil ==> err != nil && nsend(router.sock) == old(nsend(router.sock))
+//@   ensures [one.frame] data != nil ==> nsend(router.sock) == old(nsend(router.sock)) + 1 && typeis(lastsend(router.sock), *knxnet.RoutingInd) && lastsend(router.sock).(*knxnet.RoutingInd).Payload == data
+//@   ensures [retained] data != nil && err == nil ==> gobj("lpush", router.retainer) == old(gobj("lpush", router.retainer)) + 1 && uint(gobj("llen", router.retainer)) == min(uint(old(gobj("llen", router.retainer))) + 1, router.config.RetainCount)
+//@   ensures [not.retained] err != nil ==> gobj("llen", router.retainer) == old(gobj("llen", router.retainer)) && gobj("lpush", router.retainer) == old(gobj("lpush", router.retainer))
+//@   ensures [bounded] uint(gobj("llen", router.retainer)) <= router.config.RetainCount && gobj("lpopback", router.retainer) == old(gobj("lpopback", router.retainer))
+//@   ensures [pause] data != nil && err == nil && router.postSendPause > 0 ==> gobj("unlockclock", &router.sendMu) >= gobj("sendclock", payload(router.sock)) + int(router.postSendPause)
+//@   ensures [unlocked] !held(router.sendMu)
+//@   assigns nothing
+//@   loop 0 invariant held(router.sendMu) && gobj("lpush", router.retainer) == old(gobj("lpush", router.retainer)) + 1 && uint(gobj("llen", router.retainer)) <= uint(old(gobj("llen", router.retainer))) + 1 && (uint(gobj("llen", router.retainer)) < uint(old(gobj("llen", router.retainer))) + 1 ==> uint(gobj("llen", router.retainer)) >= router.config.RetainCount) && gobj("llen", router.retainer) >= 0 && err == nil && data != nil
+//@   loop 0 invariant nsend(router.sock) == old(nsend(router.sock)) + 1 && typeis(lastsend(router.sock), *knxnet.RoutingInd) && lastsend(router.sock).(*knxnet.RoutingInd).Payload == data && gobj("sendclock", payload(router.sock)) <= gval("clock")
+//@   loop 0 decreases gobj("llen", router.retainer)
+//@   loop 0 assigns nothing
+//@   loop 0 ghost llen lpopfront lend
+
+//@ func (router *Router) resendLost(count uint16)
+//@   props C14
+//@   ghost held(router.sendMu) unlockclock(router.sendMu) llen(router.retainer) lpopback(router.retainer) lend nspawn spawnarg
+//@   requires router.retainer != nil && !held(router.sendMu) && gobj("llen", router.retainer) >= 0
+//@   ensures [removed] gobj("llen", router.retainer) == old(gobj("llen", router.retainer)) - min(int(count), old(gobj("llen", router.retainer))) && gobj("lpopback", router.retainer) == old(gobj("lpopback", router.retainer)) + min(int(count), old(gobj("llen", router.retainer)))
+//@   ensures [one.resend] nspawn("(*knx.Router).sendMultiple") == old(nspawn("(*knx.Router).sendMultiple")) + 1 && spawnarg("(*knx.Router).sendMultiple", 1, 1) == min(int(count), old(gobj("llen", router.retainer)))
+//@   ensures [unlocked] !held(router.sendMu)
+//@   assigns nothing
+//@   loop 0 invariant held(router.sendMu) && -1 <= i && i < len(messages) && len(messages) == min(int(old(count)), old(gobj("llen", router.retainer))) && gobj("llen", router.retainer) == old(gobj("llen", router.retainer)) - (len(messages) - 1 - i) && gobj("lpopback", router.retainer) == old(gobj("lpopback", router.retainer)) + (len(messages) - 1 - i)
+//@   loop 0 decreases i + 1
+//@   loop 0 assigns messages[0:len(messages)]
+//@   loop 0 ghost llen lpopback lend
+
+//@ func (router *Router) sendMultiple(messages []cemi.Message)
+//@   props C14
+//@   ghost
+//@   requires router.sock != nil && router.retainer != nil && !held(router.sendMu) && router.config.RetainCount >= 1 && router.config.RetainCount <= 1<<30 && uint(gobj("llen", router.retainer)) <= router.config.RetainCount && router.postSendPause <= 1<<40
+//@   assigns nothing
+//@   loop 0 invariant -1 <= rangeindex && rangeindex < len(messages) && !held(router.sendMu) && uint(gobj("llen", router.retainer)) <= router.config.RetainCount
+//@   loop 0 step [in.order] nsend(router.sock) > prev(nsend(router.sock)) ==> nsend(router.sock) == prev(nsend(router.sock)) + 1 && lastsend(router.sock).(*knxnet.RoutingInd).Payload == messages[rangeindex]
+//@   loop 0 decreases len(messages) - rangeindex
+//@   loop 0 assigns nothing
+
+//@ func (router *Router) serve()
+//@   props C14 C13
+//@   ghost
+//@   noterm
+//@   requires router.sock != nil && router.retainer != nil && !closed(router.inbound) && !held(router.sendMu) && gobj("llen", router.retainer) >= 0
+//@   ensures [closed] closed(router.inbound) && nclose(router.inbound) == old(nclose(router.inbound)) + 1
+//@   assigns nothing
+//@   loop 0 invariant !closed(router.inbound) && nclose(router.inbound) == old(nclose(router.inbound)) && !held(router.sendMu) && gobj("llen", router.retainer) >= 0
+//@   loop 0 step [indication] nrecv(router.sock.Inbound()) > prev(nrecv(router.sock.Inbound())) && typeis(lastrecv(router.sock.Inbound()), *knxnet.RoutingInd) ==> nsent(router.inbound) == prev(nsent(router.inbound)) + 1 && lastsent(router.inbound) == lastrecv(router.sock.Inbound()).(*knxnet.RoutingInd).Payload
+//@   loop 0 step [others] !(nrecv(router.sock.Inbound()) > prev(nrecv(router.sock.Inbound())) && typeis(lastrecv(router.sock.Inbound()), *knxnet.RoutingInd)) ==> nsent(router.inbound) == prev(nsent(router.inbound))
+//@   loop 0 step [busy] nrecv(router.sock.Inbound()) > prev(nrecv(router.sock.Inbound())) && typeis(lastrecv(router.sock.Inbound()), *knxnet.RoutingBusy) && lastrecv(router.sock.Inbound()).(*knxnet.RoutingBusy).WaitTime >= 0 && lastrecv(router.sock.Inbound()).(*knxnet.RoutingBusy).WaitTime <= 1<<40 && !prev(held(router.sendMu)) ==> gobj("unlockclock", &router.sendMu) >= prev(gval("clock")) + min(int(lastrecv(router.sock.Inbound()).(*knxnet.RoutingBusy).WaitTime), 50000000)
+//@   loop 0 assigns nothing
+
+//@ func (gt *GroupTunnel) Send(event GroupEvent) (err error)
+//@   props C12
+//@   timeout 120
+//@   ghost
+//@   noterm
+//@   requires gt.Tunnel != nil && gt.Tunnel.sock != nil && !held(gt.Tunnel.seqMu) && gt.Tunnel.config.ResendInterval > 0
+//@   ensures [request] nsend(gt.Tunnel.sock) >= old(nsend(gt.Tunnel.sock)) + 1 && typeis(lastsend(gt.Tunnel.sock), *knxnet.TunnelReq) && typeis(lastsend(gt.Tunnel.sock).(*knxnet.TunnelReq).Payload, *cemi.LDataReq)
+//@   ensures [frame] lastsend(gt.Tunnel.sock).(*knxnet.TunnelReq).Payload.(*cemi.LDataReq).Destination == uint16(event.Destination) && lastsend(gt.Tunnel.sock).(*knxnet.TunnelReq).Payload.(*cemi.LDataReq).Source == event.Source && lastsend(gt.Tunnel.sock).(*knxnet.TunnelReq).Payload.(*cemi.LDataReq).Control2.IsGroupAddr() && typeis(lastsend(gt.Tunnel.sock).(*knxnet.TunnelReq).Payload.(*cemi.LDataReq).Data, *cemi.AppData) && lastsend(gt.Tunnel.sock).(*knxnet.TunnelReq).Payload.(*cemi.LDataReq).Data.(*cemi.AppData).Command == cemi.APCI(event.Command) && lastsend(gt.Tunnel.sock).(*knxnet.TunnelReq).Payload.(*cemi.LDataReq).Data.(*cemi.AppData).Data == event.Data
+
+//@ func (gr *GroupRouter) Send(event GroupEvent) (err error)
+//@   props C12
+//@   ghost
+//@   requires gr.Router != nil && gr.Router.sock != nil && gr.Router.retainer != nil && !held(gr.Router.sendMu) && gr.Router.config.RetainCount >= 1 && gr.Router.config.RetainCount <= 1<<30 && uint(gobj("llen", gr.Router.retainer)) <= gr.Router.config.RetainCount && gr.Router.postSendPause <= 1<<40
+//@   ensures [indication] nsend(gr.Router.sock) == old(nsend(gr.Router.sock)) + 1 && typeis(lastsend(gr.Router.sock), *knxnet.RoutingInd) && typeis(lastsend(gr.Router.sock).(*knxnet.RoutingInd).Payload, *cemi.LDataInd)
+//@   ensures [frame] lastsend(gr.Router.sock).(*knxnet.RoutingInd).Payload.(*cemi.LDataInd).Destination == uint16(event.Destination) && lastsend(gr.Router.sock).(*knxnet.RoutingInd).Payload.(*cemi.LDataInd).Control2.IsGroupAddr() && typeis(lastsend(gr.Router.sock).(*knxnet.RoutingInd).Payload.(*cemi.LDataInd).Data, *cemi.AppData) && lastsend(gr.Router.sock).(*knxnet.RoutingInd).Payload.(*cemi.LDataInd).Data.(*cemi.AppData).Command == cemi.APCI(event.Command) && lastsend(gr.Router.sock).(*knxnet.RoutingInd).Payload.(*cemi.LDataInd).Data.(*cemi.AppData).Data == event.Data
